@@ -35,10 +35,20 @@ func c14Project() *Project {
 	s.DependsOn = DependsOnConfig{"k2": ServiceDependency{Condition: "service_started", Required: true, Restart: true},
 		"d1": ServiceDependency{Condition: "service_started", Required: false}}
 	p.Services["k1"] = s
+	// k3: a third service so that k1 -> k2 -> k3 is a chain
+	k2c := p.Services["k2"]
+	k3 := *k2c.deepCopy()
+	k3.Name = "k3"
+	p.Services["k3"] = k3
+	k2 := p.Services["k2"]
+	k2.DependsOn = DependsOnConfig{"k3": ServiceDependency{Condition: "service_healthy", Required: true}}
+	p.Services["k2"] = k2
 	return p
 }
 
 func VerifC14Immutable() {
+	// schedules are C19's subject; here the worker goroutines of WithServicesTransform run without preemption
+	vrtSetPreemptions(vrtParam("PREEMPT", 0))
 	p := c14Project()
 	before := vrtClone(p).(*Project)
 	nops := 1 + vrtChoice("nops", vrtParam("OPS", 2))
